@@ -54,6 +54,8 @@ class World12:
         self.seam = S.SolverSeam(probe_seed)
         self.seam.keep_fun = True
         self.seam.install()
+        self.fs = S.FakeFS()
+        self.fs.install()
         self.act = Actor("A")
         self.log = []
         self.stats = {"faults": {}, "probes": {}, "ops": {}, "checks": 0, "checks_equal": 0, "bit_equal": 0, "rejected_loudly": 0, "transitions": set()}
@@ -102,6 +104,8 @@ class World12:
             self.seam.next_fault = None
             self.ever = True
             return out
+        if k == "restart":
+            return self.restart(step)
         if k == "query":
             try:
                 n = a.node(step.get("stage"))
@@ -149,6 +153,51 @@ class World12:
             self.probe("clone")
         if step.get("stage") in a.templates and any(True for n in a.sub.values()):
             self.probe("template_edit_after_clone")
+        return "ok"
+
+    def restart(self, step):
+        """C18 for multi-stage OCPs: save, drop every object, load, continue on the loaded OCP with symbols
+        fetched through the public accessors (stages through iter_stages, in creation order)"""
+        import gc
+
+        from rockit import Ocp
+
+        from .hist import fetch_symbols
+
+        a = self.act
+        if self.tainted:
+            return "skipped"
+        fs = self.fs
+        try:
+            a.ocp.save(step.get("path", "ms.rockit"))
+        except Exception as e:
+            raise Violation("save-raises", "ocp.save raised %s: %s" % (type(e).__name__, str(e)[:200]))
+        try:
+            loaded = Ocp.load(step.get("path", "ms.rockit"))
+        except Exception as e:
+            raise Violation("load-raises", "Ocp.load of an intact file raised %s: %s" % (type(e).__name__, str(e)[:200]))
+        new = Actor("A")
+        new.ocp = loaded
+        new.spec = a.spec
+        new.templates = a.templates  # templates are free-standing objects of the session, not part of the file
+        try:
+            new.syms = fetch_symbols(loaded, a.spec)
+            kids = list(loaded.iter_stages())
+            if len(kids) != len(a.spec.stages):
+                raise Exception("%d stages declared, iter_stages() yields %d" % (len(a.spec.stages), len(kids)))
+            for (name, ch), obj in zip(a.spec.stages, kids):
+                n = Actor(name, parent=new)
+                n.ocp = obj
+                n.spec = ch
+                n.syms = fetch_symbols(obj, ch)
+                new.sub[name] = n
+        except Exception as e:
+            raise Violation("load-accessors", "symbols / stages of the loaded OCP not reachable through the accessors: %s" % str(e)[:200])
+        self.act = new
+        del a
+        gc.collect()
+        self.ever = False
+        self.probe("restart")
         return "ok"
 
     def _missing(self, step):
@@ -297,9 +346,9 @@ class World12:
             for sname, sym in n.syms.items():
                 allsyms.append((nn, sname, sym))
         for nn, n in nodes.items():
-            own = set(id(v) for v in n.syms.values())
+            own = set(v.__hash__() for v in n.syms.values())  # CasADi node identity (survives save / load)
             for (on, sname, sym) in allsyms:
-                belongs = id(sym) in own
+                belongs = sym.__hash__() in own
                 try:
                     n.ocp.signal_shape(sym)
                     known = True
@@ -401,7 +450,7 @@ def _mentions_in(sp):
 # ----------------------------------------------------------------------------------------------
 # scheduler
 # ----------------------------------------------------------------------------------------------
-def gen_run(r, w, steps, emit):
+def gen_run(r, w, steps, emit, restarts=False):
     import os
 
     cfg = dict(CFG)
@@ -440,6 +489,8 @@ def gen_run(r, w, steps, emit):
     emit({"op": "solver", "name": "ipopt", "opts": {}})
     for i in range(swarm["nsteps"]):
         kinds = [(2, "edit_stage"), (2, "check"), (1.5, "couple"), (1, "solve"), (0.7, "query")]
+        if restarts:
+            kinds.append((2.5, "restart"))
         if names["tpl"]:
             kinds += [(2, "edit_template"), (2, "clone")]
         if swarm["parent_var"]:
@@ -448,6 +499,8 @@ def gen_run(r, w, steps, emit):
         a = w.act
         if k == "check":
             emit({"op": "check"})
+        elif k == "restart":
+            emit({"op": "restart", "path": "ms.rockit"})
         elif k == "solve":
             d = {"op": "solve"}
             if r.random() < swarm["p_fault"]:
@@ -495,7 +548,8 @@ def clone_op(r, names, n, act=None):
         guessed = set(x for x, g in act.templates[d["template"]].spec.initial)
     if r.random() < 0.5:
         # a fixed horizon together with an inherited guess for it would be ill-posed
-        d["t0"] = ["num", G.rnum(r, -1, 1)] if (r.random() < 0.6 and "t0" not in guessed) else ["free", G.rnum(r, -1, 1)]
+        # (0 is a legal override and differs from "not given")
+        d["t0"] = ["num", G.pick(r, [0, 0.0, G.rnum(r, -1, 1)])] if (r.random() < 0.6 and "t0" not in guessed) else ["free", G.pick(r, [0, G.rnum(r, -1, 1)])]
     if r.random() < 0.5:
         d["T"] = ["num", G.positive_value(r)] if (r.random() < 0.5 and "T" not in guessed) else ["free", G.positive_value(r)]
     names["stage"].append(d["name"])
@@ -551,23 +605,23 @@ def _finish(w, steps, result):
                        "bit_equal": st["bit_equal"], "rejected_loudly": 0, "transitions": [], "handoffs": w.seam.reached}
     kinds = [s["op"] + ":" + ("T" if s.get("stage", "").startswith("tp") else "C" if s.get("stage", "").startswith("c") else "S" if s.get("stage") else "P") for s in steps]
     result["history_key"] = hashlib.sha256(json.dumps(kinds).encode()).hexdigest()[:16]
-    result["nontrivial"] = bool(st["probes"].get("clone", 0) and st["checks_equal"])
+    result["nontrivial"] = bool((st["probes"].get("clone", 0) or st["probes"].get("restart", 0)) and st["checks_equal"])
     return result
 
 
-def run_seed(seed):
+def run_seed(seed, restarts=False):
     r = random.Random(seed)
     probe_seed = r.randrange(1 << 30)
     w = World12(probe_seed)
     steps = []
-    result = {"prop": "C12", "seed": seed, "probe_seed": probe_seed, "verdict": "ok"}
+    result = {"prop": "C18" if restarts else "C12", "seed": seed, "probe_seed": probe_seed, "verdict": "ok"}
 
     def emit(op):
         steps.append(op)
         w.execute(len(steps) - 1, op)
 
     try:
-        result["config"] = gen_run(r, w, steps, emit)
+        result["config"] = gen_run(r, w, steps, emit, restarts=restarts)
     except Violation as v:
         result["verdict"] = "violation"
         result["violation"] = {"class": v.cls, "detail": v.detail, "step": v.step}
